@@ -174,6 +174,11 @@ def run(case, ctx):
     if not ok:
         ctx.violate(f"C09/raise:{obj.type}/{cname}/{shape}", f"from_spec({spec!r}) raised {obj!r}\n spelling features: {feats}\n term={t}")
         return
+    for o_ in (obj, dsl):
+        try:
+            hash(o_)  # (objects that have been hashed / put in a set before they are compared)
+        except Exception:
+            pass
     okq, eq = call(lambda: (obj == dsl, dsl == obj))
     if not okq:
         ctx.violate(f"C09/{eq.key()}/eq/{cname}", f"== raised {eq!r}")
